@@ -825,17 +825,46 @@ fn child_render(tpls: Vec<(String, String)>) -> String {
     h.join().unwrap_or_else(|_| "panic".into())
 }
 
-/// run one recursion shape in a child process; "crash <status>" when the child died
+/// run one recursion shape in a child process; "crash <status>" when the child died, "timeout" when
+/// it did not finish within a minute
 fn run_in_child(arg: &str) -> String {
+    use std::io::Read;
     let exe = std::env::current_exe().unwrap();
-    let out = std::process::Command::new(exe).arg("--child").arg(arg).output();
-    match out {
-        Ok(o) => {
-            let text = String::from_utf8_lossy(&o.stdout).trim().to_string();
-            if o.status.success() && !text.is_empty() { text } else { format!("crash {:?} {}", o.status, String::from_utf8_lossy(&o.stderr).chars().take(200).collect::<String>()) }
+    let child = std::process::Command::new(exe)
+        .arg("--child")
+        .arg(arg)
+        .stdout(std::process::Stdio::piped())
+        .stderr(std::process::Stdio::piped())
+        .spawn();
+    let mut child = match child {
+        Ok(c) => c,
+        Err(e) => return format!("crash spawn {e}"),
+    };
+    let start = std::time::Instant::now();
+    let status = loop {
+        match child.try_wait() {
+            Ok(Some(st)) => break st,
+            Ok(None) => {
+                if start.elapsed().as_secs() > 60 {
+                    let _ = child.kill();
+                    let _ = child.wait();
+                    return "timeout".into();
+                }
+                std::thread::sleep(std::time::Duration::from_millis(10));
+            }
+            Err(e) => return format!("crash wait {e}"),
         }
-        Err(e) => format!("crash spawn {e}"),
+    };
+    let mut out = String::new();
+    let mut err = String::new();
+    if let Some(mut o) = child.stdout.take() {
+        let _ = o.read_to_string(&mut out);
     }
+    if let Some(mut e) = child.stderr.take() {
+        let _ = e.read_to_string(&mut err);
+    }
+    let text = out.trim().to_string();
+    if status.success() && !text.is_empty() { text } else { format!("crash {status:?} {}", err.chars().take(200).collect::<String>()) }
 }
 
 // ------------------------------------------------------------------ API equivalence
@@ -851,26 +880,41 @@ fn api_equiv(rng: &mut Rng, n: usize, report: &mut Report) -> Option<(String, se
         for name in names.iter().take(np) {
             let ty = if rng.chance(1, 2) { Some(TYPES[rng.below(TYPES.len())]) } else { None };
             let dflt = if rng.chance(1, 2) { Some(defs[rng.below(defs.len())].clone()) } else { None };
-            params.push(Param { name: name.to_string(), ty, dflt });
-            if rng.chance(2, 3) {
-                let v = vals[rng.below(vals.len())].clone();
+            if rng.chance(if dflt.is_some() { 1 } else { 5 }, if dflt.is_some() { 2 } else { 6 }) {
+                let mut v = vals[rng.below(vals.len())].clone();
+                if let Some(t) = ty.or_else(|| dflt.as_ref().and_then(|d| inferred(&d.1))) {
+                    if rng.chance(4, 5) {
+                        if let Some(ok) = vals.iter().find(|x| type_accepts(t, x)) {
+                            v = ok.clone();
+                        }
+                    }
+                }
                 if !v.is_undefined() {
                     kwargs.push((Key::from(name.to_string()), v));
                 }
             }
+            params.push(Param { name: name.to_string(), ty, dflt });
         }
-        if rng.chance(1, 4) {
+        if rng.chance(1, 6) {
             kwargs.push((Key::from("zextra".to_string()), Value::from("<e>")));
         }
         let def = Def { params, rest: if rng.chance(1, 2) { Some("rest".into()) } else { None } };
         let with_body = rng.chance(1, 2);
         let ae = rng.chance(1, 2);
         let body_text = "<u>body & text</u>";
-        let comp_body = "{% for k, v in __tera_context %}{{ k }}={{ v }};{% endfor %}|{{ a | default(value=\"-\") }}";
-        let mut tera = new_tera();
         let sfx = if ae { ".html" } else { ".txt" };
+        // the defining template's own suffix must not matter: the caller's mode / the API flag decides,
+        // also for a nested component and (through the carried override) for an include
+        let def_sfx = if rng.chance(1, 2) { ".html" } else { ".txt" };
+        let comp_body = format!("{{% for k, v in __tera_context %}}{{{{ k }}}}={{{{ v }}}};{{% endfor %}}|{{{{ a | default(value=\"-\") }}}}|{{{{ <nested v={{a | default(value=\"<n>\")}}/> }}}}|{{% include \"apiinc{sfx}\" %}}");
+        let comp_body = comp_body.as_str();
+        let mut tera = new_tera();
         let call = if with_body { format!("{{% <comp {{...kw}}> %}}{body_text}{{% </comp> %}}") } else { "{{ <comp {...kw}/> }}".to_string() };
-        if let Err(e) = tera.add_raw_templates(vec![(format!("defs{sfx}"), def.source("comp", comp_body)), (format!("main{sfx}"), call.clone())]) {
+        if let Err(e) = tera.add_raw_templates(vec![
+            (format!("defs{def_sfx}"), format!("{}{{% component nested(v) %}}n:{{{{ v }}}}{{% endcomponent nested %}}", def.source("comp", comp_body))),
+            (format!("apiinc{sfx}"), "i:{{ a | default(value=\"<i>\") }}{{ <nested v=\"<lit>\"/> }}".to_string()),
+            (format!("main{sfx}"), call.clone()),
+        ]) {
             return Some((format!("api: add failed {e:?}"), serde_json::json!({"stream": "api"})));
         }
         let mut cctx = Context::new();
@@ -1144,7 +1188,7 @@ fn main() {
 
     // ---- stream P
     {
-        let names = ["btn.html", "a/btn.html", "b/btn.html", "a/x/btn.html", "b/y.html", "c.html", "a/z.html"];
+        let names = ["btn.html", "a/btn.html", "b/btn.html", "a/x/btn.html", "b/y.html", "c.html", "a/z.html", "a0.html"];
         let prefix_sets: Vec<Vec<String>> = vec![
             vec![],
             vec!["a/".into()],
@@ -1259,7 +1303,7 @@ fn main() {
 
     report.exhaustive = true;
     report.notes.push(format!(
-        "exhaustive: 1 parameter over 9 type annotations × 8 defaults × 13 supplies × rest × 4 extras ({n1}); 2 parameters over 4×4×5 each × rest × 3 extras ({n2}); 3 parameters over 2×2×{} each × rest × 3 extras ({n3}); every subset (≤ 4 in quick) of 7 templates defining the component under 8 fallback-prefix lists; {reached} of {} binding cases reached build_context ({:.1} %)",
+        "exhaustive: 1 parameter over 9 type annotations × 8 defaults × 13 supplies × rest × 4 extras ({n1}); 2 parameters over 4×4×5 each × rest × 3 extras ({n2}); 3 parameters over 2×2×{} each × rest × 3 extras ({n3}); every subset (≤ 4 in quick) of 8 templates defining the component under 8 fallback-prefix lists; {reached} of {} binding cases reached build_context ({:.1} %)",
         s3.len(), total_bind, 100.0 * reached as f64 / total_bind.max(1) as f64
     ));
     report.notes.push("observation (not counted as a violation): a default that does not match the declared type of its parameter is accepted at definition time and bound as is (`c(a: integer = \"x\")` called without `a` binds the string); the binding rules used as oracle follow the engine here".into());
